@@ -187,6 +187,11 @@ func Judge(input []byte, r size.Rule, maxKeys int) Verdict {
 	if r&(size.RuleEnableJSONStringForm|size.RuleEnableJSONObjectForm) == 0 {
 		return textVerdict(string(input), r&size.RuleDisableUnit != 0, "text mode")
 	}
+	if nestingDepth(input) >= 10000 {
+		// encoding/json refuses documents nested deeper than 10,000 levels whether or not they are well formed: beyond its limit
+		// the trusted base does not decide well-formedness, so only totality is asserted there.
+		return Verdict{Unspecified: true, Reason: "nested deeper than encoding/json's own limit"}
+	}
 	doc, ok := Derive(input)
 	if !ok {
 		return Verdict{Reason: "not exactly one well-formed JSON value"}
@@ -215,6 +220,32 @@ func Judge(input []byte, r size.Rule, maxKeys int) Verdict {
 	default:
 		return Verdict{Faults: []string{"ErrExpectedObject", "ErrInvalidType"}, Reason: "JSON " + doc.Kind + " is not a size"}
 	}
+}
+
+// nestingDepth is the deepest bracket nesting of input, ignoring brackets inside JSON strings (an upper bound for malformed input).
+func nestingDepth(input []byte) int {
+	depth, max, inStr := 0, 0, false
+	for i := 0; i < len(input); i++ {
+		c := input[i]
+		switch {
+		case inStr:
+			if c == '\\' {
+				i++
+			} else if c == '"' {
+				inStr = false
+			}
+		case c == '"':
+			inStr = true
+		case c == '[' || c == '{':
+			depth++
+			if depth > max {
+				max = depth
+			}
+		case c == ']' || c == '}':
+			depth--
+		}
+	}
+	return max
 }
 
 func textVerdict(s string, unitOff bool, why string) Verdict {
